@@ -388,10 +388,28 @@ func c18prop(ev *evid.Rec) func(rt *rapid.T) {
 					real := ps[rapid.IntRange(0, len(ps)-1).Draw(rt, "real")]
 					cut := rapid.IntRange(0, len(real)-1).Draw(rt, "insertAt")
 					stale := append(append(append([]string{}, real[:cut]...), "No Such Place"), real[cut:]...)
-					if rapid.Bool().Draw(rt, "tailOnly") {
+					switch rapid.IntRange(0, 2).Draw(rt, "staleKind") {
+					case 1:
 						stale = append(append([]string{}, real[:cut]...), "No Such Place", real[len(real)-1])
+					case 2:
+						// only the last component is gone (the category somebody just deleted), its parent exists
+						stale = append(append([]string{}, real[:len(real)-1]...), "No Such Place")
 					}
 					op := rapid.SampledFrom([]string{"list-categories", "list-articles", "get-article", "post", "delete-article", "delete-item", "new-category", "new-bundle"}).Draw(rt, "op")
+					// ... or the path field is missing, empty, has no items or ends inside an item: a request that needs a target
+					// and names none changes nothing either
+					newsPath := newsPath
+					if form := rapid.SampledFrom([]string{"stale", "stale", "stale", "absent", "empty", "zero-count", "truncated"}).Draw(rt, "pathForm"); form != "stale" && (op == "post" || op == "delete-article" || op == "delete-item" || op == "get-article") {
+						enc := hlref.EncodeNewsPath(real)
+						raw := map[string][]byte{"absent": nil, "empty": {}, "zero-count": {0, 0}, "truncated": enc[:len(enc)-1]}[form]
+						newsPath = func([]string) hlref.Field {
+							if form == "absent" {
+								return fld(hlref.FNewsArtDataFlav, []byte("text/plain")) // (some other, harmless field in its place)
+							}
+							return fld(hlref.FNewsPath, raw)
+						}
+						stale = []string{"<" + form + " path field>"}
+					}
 					rec("stale-path %s %v", op, stale)
 					switch op {
 					case "list-categories":
